@@ -29,6 +29,8 @@ type c12Decl struct {
 	H     int               `long:"hex" base:"16"`
 	U     uint8             `long:"u8"`
 	I64   int64             `long:"i64"`
+	U64   uint64            `long:"u64"`
+	HU    uint32            `long:"hu" base:"16"`
 	B     bool              `long:"bb"`
 	F     float64           `long:"flt"`
 	Du    time.Duration     `long:"dur"`
@@ -113,6 +115,9 @@ func H_C12_roundtrip(v *V) {
 		d1.U = []uint8{0, 9, 255}[v.Choice(3)]
 		d1.I64 = []int64{0, -1, 1<<63 - 1, -1 << 63}[v.Choice(4)]
 		d1.B = v.Choice(2) == 1
+	case 13:
+		d1.U64 = []uint64{0, 1 << 63, 1<<64 - 1, 1<<63 - 1}[v.Choice(4)]
+		d1.HU = []uint32{0, 1 << 31, 1<<32 - 1}[v.Choice(3)]
 	case 6:
 		d1.F = []float64{0, 1.5, -2.25e-9, 1e300}[v.Choice(4)]
 		d1.Du = []time.Duration{0, 1500 * time.Millisecond, -3 * time.Hour}[v.Choice(3)]
@@ -165,7 +170,7 @@ func H_C12_roundtrip(v *V) {
 		y, ok := d2.MI[k]
 		v.Assert(ok && x == y, "integer map values are reproduced exactly")
 	}
-	v.Assert(d2.H == d1.H && d2.U == d1.U && d2.I64 == d1.I64 && d2.B == d1.B, "numbers in every base and booleans are reproduced exactly")
+	v.Assert(d2.H == d1.H && d2.U == d1.U && d2.I64 == d1.I64 && d2.B == d1.B && d2.U64 == d1.U64 && d2.HU == d1.HU, "numbers in every base and booleans are reproduced exactly")
 	v.Assert(d2.F == d1.F && d2.Du == d1.Du, "floats and durations are reproduced exactly")
 	v.Assert(v.EqStr(d2.Inner.IS, d1.Inner.IS) && v.EqStr(d2.Cmd.CS, d1.Cmd.CS) && v.EqStrs(d2.Cmd.CL, d1.Cmd.CL) && v.EqStr(d2.Cmd.CG.GS, d1.Cmd.CG.GS), "options of nested groups and commands are reproduced exactly")
 }
